@@ -23,7 +23,7 @@ def run(seed: str):
     try:
         shutil.copytree("/repo/src", os.path.join(tmp, "src"))
         subprocess.run(["git", "init", "-q", tmp], capture_output=True)
-        r = subprocess.run(["git", "-C", tmp, "apply", os.path.join(d, "patch.diff")], capture_output=True, text=True)
+        r = subprocess.run(["git", "-C", tmp, "apply", "--include=src/*", os.path.join(d, "patch.diff")], capture_output=True, text=True)  # (only the library source is copied)
         if r.returncode:
             return seed, prop, "PATCH-ERROR", r.stderr[-200:]
         env = dict(os.environ, REDRESS_REPO=tmp, VERIF_OUT=os.path.join(tmp, "out"))
